@@ -209,12 +209,17 @@ class World:
         except StopIteration as st:
             return st.value[1] if st.value else None
         while True:
+            pending = None
             try:
                 sent = yield req[1]
             except GeneratorExit:
                 g.close(); raise
             except BaseException as ex:
-                try: req = g.throw(ex)
+                pending = ex
+            # the exception is thrown into the body only after this handler is left: otherwise whatever the body raises later
+            # would carry it as __context__ (an artefact of the interpreter, not of the program it interprets)
+            if pending is not None:
+                try: req = g.throw(pending)
                 except StopIteration as st: return st.value[1] if st.value else None
             else:
                 try: req = g.send(sent)
@@ -228,11 +233,14 @@ class World:
         except StopIteration as st:
             return st.value[1] if st.value else None
         while True:
+            pending = None
             try:
                 if req[0] == 'await_co': res = await req[1]
                 else: res = await Suspend()
             except BaseException as ex:
-                try: req = g.throw(ex)
+                pending = ex
+            if pending is not None:
+                try: req = g.throw(pending)
                 except StopIteration as st: return st.value[1] if st.value else None
             else:
                 try: req = g.send(res)
